@@ -98,12 +98,14 @@ theorem removeLoop_safe {T : Nat → Option Block} (anc : Block) :
       Safe (removeLoop anc.height n s) ∧
       ∃ c2, Inv T (removeLoop anc.height n s).disk (removeLoop anc.height n s).mem c2 ∧ c2 <:+ c ∧
         (removeLoop anc.height n s).mem.latest = anc ∧
-        (∀ h ∈ s.mem.verified, (∀ z ∈ c, z.hash ≠ h) → h ∈ (removeLoop anc.height n s).mem.verified) := by
+        (∀ h ∈ s.mem.verified, (∀ z ∈ c, z.hash ≠ h) → h ∈ (removeLoop anc.height n s).mem.verified) ∧
+        (∀ t ∈ s.mem.pending, t ∈ (removeLoop anc.height n s).mem.pending) ∧
+        (∀ x ∈ c, x ∉ c2 → ∀ t ∈ x.txs, t ∈ (removeLoop anc.height n s).mem.pending) := by
   intro n
   induction n with
   | zero =>
     intro s c hs inv ha hb
-    refine ⟨hs, c, inv, List.suffix_refl _, ?_, fun h hh _ => hh⟩
+    refine ⟨hs, c, inv, List.suffix_refl _, ?_, fun h hh _ => hh, fun t ht => ht, fun x hx hn => absurd hx hn⟩
     obtain ⟨rest, hc⟩ := head_of_latest inv
     have hmem : s.mem.latest ∈ c := by rw [hc]; exact List.mem_cons_self ..
     have hle : anc.height ≤ s.mem.latest.height := by
@@ -164,8 +166,14 @@ theorem removeLoop_safe {T : Nat → Option Block} (anc : Block) :
           simp at hl
           have : y.height < s.mem.latest.height := hlk.2.1
           rw [← hl]; omega
-      obtain ⟨hs2, c2, inv2, hsuf, hl2, hv2⟩ := ih _ rest hsafe hR.1 hanc hb'
-      refine ⟨hs2, c2, inv2, ?_, hl2, ?_⟩
+      obtain ⟨hs2, c2, inv2, hsuf, hl2, hv2, hp2, hr2⟩ := ih _ rest hsafe hR.1 hanc hb'
+      refine ⟨hs2, c2, inv2, ?_, hl2, ?_, fun t ht => hp2 t (hR.2.2.1 t ht), ?_⟩
+      rotate_left 2
+      · intro x hx hn t ht
+        rw [hc] at hx
+        rcases List.mem_cons.mp hx with e | e
+        · subst e; exact hp2 t (hR.2.1 t ht).2
+        · exact hr2 x e hn t ht
       · rw [hc]; exact List.IsSuffix.trans hsuf (List.suffix_cons _ _)
       · intro h hh hz
         apply hv2 h
@@ -177,55 +185,79 @@ theorem removeLoop_safe {T : Nat → Option Block} (anc : Block) :
 
 /-! ### extending the head: the old chain stays, the block goes on top -/
 
+/-- nothing pending is lost except into a block of the new chain -/
+def Kept (pend : List Nat) (c' : List Block) (pend' : List Nat) : Prop :=
+  ∀ t ∈ pend, t ∈ pend' ∨ ∃ y ∈ c', t ∈ y.txs
+
+theorem verify_pending (s : St) (b : Block) : (verify s b).1.mem.pending = s.mem.pending := by
+  unfold verify
+  split
+  · rfl
+  · split
+    · rfl
+    · split
+      · rfl
+      · split <;> rfl
+
 /-- what `insertB ∘ insertA` gives a node that cannot die -/
 theorem insertAB_safe {T : Nat → Option Block} {s : St} {b y : Block} {c : List Block} (hs : Safe s)
     (inv : Inv T s.disk s.mem c) (hp : b.pre = y.hash) (hy : c.head? = some y) (hh : y.height < b.height)
-    (hn : s.disk.blocks b.hash = none) (hT : T b.hash = some b) :
-    Safe (insertB (insertA s b) b) ∧ Inv T (insertB (insertA s b) b).disk (insertB (insertA s b) b).mem (b :: c) := by
+    (hn : s.disk.blocks b.hash = none) (hT : T b.hash = some b) (hfresh : ∀ z ∈ c, ∀ t ∈ b.txs, t ∉ z.txs) :
+    Safe (insertB (insertA s b) b) ∧ Inv T (insertB (insertA s b) b).disk (insertB (insertA s b) b).mem (b :: c) ∧
+      (∀ t ∈ s.mem.pending, t ∉ b.txs → t ∈ (insertB (insertA s b) b).mem.pending) := by
   have hsafe : Safe (insertB (insertA s b) b) := safe_insertB b _ (safe_writes _ s hs)
-  exact ⟨hsafe, (Out.of_alive (insertAB_spec hs.1 inv hp hy hh hn hT) hsafe.1).1⟩
+  have := Out.of_alive (insertAB_spec hs.1 inv hp hy hh hn hT hfresh) hsafe.1
+  exact ⟨hsafe, this.1, this.2.2.2.2⟩
 
 theorem insertBlock_ext {T : Nat → Option Block} {s : St} {b y : Block} {c : List Block}
     (cont : St → Block → St)
     (hcont : ∀ s' f c', Safe s' → Inv T s'.disk s'.mem c' → T f.hash = some f → f.pre = s'.mem.latest.hash →
-      Safe (cont s' f) ∧ ∃ c'', Inv T (cont s' f).disk (cont s' f).mem c'' ∧ c' <:+ c'')
+      Safe (cont s' f) ∧ ∃ c'', Inv T (cont s' f).disk (cont s' f).mem c'' ∧ c' <:+ c'' ∧
+        Kept s'.mem.pending c'' (cont s' f).mem.pending)
     (hs : Safe s) (inv : Inv T s.disk s.mem c) (hp : b.pre = y.hash) (hy : c.head? = some y)
     (hh : y.height < b.height) (hn : s.disk.blocks b.hash = none) (hT : T b.hash = some b)
-    (hv : s.mem.verified.contains b.hash = true) :
+    (hv : s.mem.verified.contains b.hash = true) (hfresh : ∀ z ∈ c, ∀ t ∈ b.txs, t ∉ z.txs) :
     Safe (insertBlock cont s b).1 ∧
-    ∃ c', Inv T (insertBlock cont s b).1.disk (insertBlock cont s b).1.mem c' ∧ (b :: c) <:+ c' := by
-  unfold insertBlock
-  simp only
-  have hmem : (insertA s b).mem = s.mem := by simp [insertA]
-  rw [hmem, hv]
-  simp only [Bool.not_true, Bool.false_and]
-  obtain ⟨hsB, invB⟩ := insertAB_safe hs inv hp hy hh hn hT
-  cases hf : (insertB (insertA s b) b).mem.future b.hash with
+    ∃ c', Inv T (insertBlock cont s b).1.disk (insertBlock cont s b).1.mem c' ∧ (b :: c) <:+ c' ∧
+      Kept s.mem.pending c' (insertBlock cont s b).1.mem.pending := by
+  rw [insertBlock_hit cont s b hv]
+  obtain ⟨hsB, invB, hkB⟩ := insertAB_safe (s := touchVerified s b) hs (touchVerified_inv inv) hp hy hh hn hT hfresh
+  cases hf : (insertB (insertA (touchVerified s b) b) b).mem.future b.hash with
   | none =>
-    simp only [Bool.false_eq_true, if_false]
-    exact ⟨hsB, b :: c, invB, List.suffix_refl _⟩
+    simp only
+    refine ⟨hsB, b :: c, invB, List.suffix_refl _, ?_⟩
+    intro t ht
+    by_cases hb : t ∈ b.txs
+    · exact Or.inr ⟨b, List.mem_cons_self .., hb⟩
+    · exact Or.inl (hkB t ht hb)
   | some f =>
-    simp only [Bool.false_eq_true, if_false]
+    simp only
     have hfut := invB.fut _ _ hf
-    have hlat : (insertB (insertA s b) b).mem.latest = b := by
+    have hlat : (insertB (insertA (touchVerified s b) b) b).mem.latest = b := by
       have := invB.latest; simp at this; exact this.symm
-    exact hcont _ f _ hsB invB hfut.2 (by rw [hlat]; exact hfut.1)
+    obtain ⟨h1, c'', h2, h3, h4⟩ := hcont _ f _ hsB invB hfut.2 (by rw [hlat]; exact hfut.1)
+    refine ⟨h1, c'', h2, h3, ?_⟩
+    intro t ht
+    by_cases hb : t ∈ b.txs
+    · exact Or.inr ⟨b, suffix_mem h3 (List.mem_cons_self ..), hb⟩
+    · exact h4 t (hkB t ht hb)
 
 /-- a block whose parent is the head: whatever happens (duplicate, rejected, inserted with a cascade of
     parked orphans), the old chain is a suffix of the new one -/
 theorem addCore_ext {T : Nat → Option Block} (vt : ValidTree T) :
     ∀ (fuel : Nat) (s : St) (b : Block) (c : List Block), Safe s → Inv T s.disk s.mem c → T b.hash = some b →
       b.pre = s.mem.latest.hash →
-      Safe (addCore fuel s b).1 ∧ ∃ c', Inv T (addCore fuel s b).1.disk (addCore fuel s b).1.mem c' ∧ c <:+ c' := by
+      Safe (addCore fuel s b).1 ∧ ∃ c', Inv T (addCore fuel s b).1.disk (addCore fuel s b).1.mem c' ∧ c <:+ c' ∧
+        Kept s.mem.pending c' (addCore fuel s b).1.mem.pending := by
   intro fuel
   induction fuel with
-  | zero => intro s b c hs inv _ _; exact ⟨hs, c, inv, List.suffix_refl _⟩
+  | zero => intro s b c hs inv _ _; exact ⟨hs, c, inv, List.suffix_refl _, fun t ht => Or.inl ht⟩
   | succ fuel ih =>
     intro s b c hs inv hT hpre
     unfold addCore
     simp only
     split
-    · exact ⟨hs, c, inv, List.suffix_refl _⟩
+    · exact ⟨hs, c, inv, List.suffix_refl _, fun t ht => Or.inl ht⟩
     · rename_i hex
       have hnb : s.disk.blocks b.hash = none := by
         cases hb : s.disk.blocks b.hash with
@@ -233,24 +265,25 @@ theorem addCore_ext {T : Nat → Option Block} (vt : ValidTree T) :
         | some z => exact absurd (Or.inr (by simp [hb])) hex
       have vs := verify_spec inv hT
       have hsv : Safe (verify s b).1 := safe_verify b s hs
+      have hvp := verify_pending s b
       split
       · rename_i s1 heq
         have e : (verify s b).1 = s1 := by rw [heq]
         rw [← e]
-        exact ⟨hsv, c, by rw [vs.1]; exact vs.2.2.1, List.suffix_refl _⟩
+        exact ⟨hsv, c, by rw [vs.1]; exact vs.2.2.1, List.suffix_refl _, fun t ht => Or.inl (by rw [hvp]; exact ht)⟩
       · rename_i s1 heq
         have e : (verify s b).1 = s1 := by rw [heq]
         have e2 : (verify s b).2 = true := by rw [heq]
-        rw [e] at vs hsv
+        rw [e] at vs hsv hvp
         have inv1 : Inv T s1.disk s1.mem c := by rw [vs.1]; exact vs.2.2.1
         first | rw [if_pos hpre] | skip
         obtain ⟨rest, hc⟩ := head_of_latest inv
         have hmemc : s.mem.latest ∈ c := by rw [hc]; exact List.mem_cons_self ..
         have hval := vt.parent b s.mem.latest hT (by rw [hpre]; exact inv.fromT _ hmemc)
-        obtain ⟨h1, c', h2, h3⟩ := insertBlock_ext (fun s f => (addCore fuel s f).1)
+        obtain ⟨h1, c', h2, h3, h4⟩ := insertBlock_ext (fun s f => (addCore fuel s f).1)
           (fun s' f c' hs' inv' hTf hpf => ih s' f c' hs' inv' hTf hpf) hsv inv1 hpre inv.latest hval.1
-          (by rw [vs.1]; exact hnb) hT (vs.2.2.2.2 e2)
-        exact ⟨h1, c', h2, List.IsSuffix.trans (List.suffix_cons _ _) h3⟩
+          (by rw [vs.1]; exact hnb) hT (vs.2.2.2.2 e2) (fresh_on_chain vt inv.chain.linked inv.fromT inv.latest hpre hT)
+        exact ⟨h1, c', h2, List.IsSuffix.trans (List.suffix_cons _ _) h3, by rw [← hvp]; exact h4⟩
 
 /-- … and if the block is new and its verification is cached (the re-entry after a reorg), it is
     inserted: `b :: c` is a suffix of the new chain -/
@@ -259,7 +292,8 @@ theorem addCore_inserts {T : Nat → Option Block} (vt : ValidTree T) (fuel : Na
     (hnb : s.disk.blocks b.hash = none) (hne : b.hash ≠ s.mem.latest.hash)
     (hv : s.mem.verified.contains b.hash = true) :
     Safe (addCore (fuel + 1) s b).1 ∧
-    ∃ c', Inv T (addCore (fuel + 1) s b).1.disk (addCore (fuel + 1) s b).1.mem c' ∧ (b :: c) <:+ c' := by
+    ∃ c', Inv T (addCore (fuel + 1) s b).1.disk (addCore (fuel + 1) s b).1.mem c' ∧ (b :: c) <:+ c' ∧
+      Kept s.mem.pending c' (addCore (fuel + 1) s b).1.mem.pending := by
   unfold addCore
   simp only
   have hex : ¬ (b.hash = s.mem.latest.hash ∨ (s.disk.blocks b.hash).isSome = true) := by
@@ -279,6 +313,7 @@ theorem addCore_inserts {T : Nat → Option Block} (vt : ValidTree T) (fuel : Na
   have hval := vt.parent b s.mem.latest hT (by rw [hpre]; exact inv.fromT _ hmemc)
   exact insertBlock_ext (fun s f => (addCore fuel s f).1)
     (fun s' f c' hs' inv' hTf hpf => addCore_ext vt fuel s' f c' hs' inv' hTf hpf) hs inv hpre inv.latest hval.1 hnb hT hv
+    (fresh_on_chain vt inv.chain.linked inv.fromT inv.latest hpre hT)
 
 /-! ### the weight order of the property -/
 
@@ -293,6 +328,13 @@ def WeightGE (c c' : List Block) : Prop :=
 
 theorem WeightGE.refl (c : List Block) : WeightGE c c := Or.inl (List.suffix_refl _)
 
+/-- transactions of the blocks a reorg removed are pending again, unless the new chain contains them -/
+def RemovedPending (c c' : List Block) (pend' : List Nat) : Prop :=
+  ∀ x ∈ c, x ∉ c' → ∀ t ∈ x.txs, t ∈ pend' ∨ ∃ y ∈ c', t ∈ y.txs
+
+theorem RemovedPending.of_suffix {c c' : List Block} (h : c <:+ c') (p : List Nat) : RemovedPending c c' p :=
+  fun _ hx hn => absurd (suffix_mem h hx) hn
+
 /-- the reorg path: remove down to the fork point, re-enter, insert -/
 theorem reorg_weight {T : Nat → Option Block} (vt : ValidTree T) (fuel : Nat) (s1 : St) (b anc : Block) (c : List Block)
     (hs : Safe s1) (inv : Inv T s1.disk s1.mem c) (hT : T b.hash = some b)
@@ -302,16 +344,17 @@ theorem reorg_weight {T : Nat → Option Block} (vt : ValidTree T) (fuel : Nat) 
       ∃ ln, s1.lookupHeight (anc.height + 1) = some ln ∧ pvGreater ln b = false) :
     Safe (addCore (fuel + 1) (removeFromCommonAncestor s1 anc) b).1 ∧
     ∃ c', Inv T (addCore (fuel + 1) (removeFromCommonAncestor s1 anc) b).1.disk
-        (addCore (fuel + 1) (removeFromCommonAncestor s1 anc) b).1.mem c' ∧ WeightGE c c' := by
+        (addCore (fuel + 1) (removeFromCommonAncestor s1 anc) b).1.mem c' ∧ WeightGE c c' ∧
+        RemovedPending c c' (addCore (fuel + 1) (removeFromCommonAncestor s1 anc) b).1.mem.pending := by
   have hancc := inv.chain.blocks_only _ _ hanc
   have hfresh : ∀ z ∈ c, z.hash ≠ b.hash := by
     intro z hz e
     have := inv.chain.blocks_mem z hz
     rw [e, hnb] at this; cases this
-  obtain ⟨hs2, c2, inv2, hsuf, hlat2, hver2⟩ :=
+  obtain ⟨hs2, c2, inv2, hsuf, hlat2, hver2, hpend2, hrem2⟩ :=
     removeLoop_safe (T := T) anc (s1.mem.latest.height - anc.height) s1 c hs inv hancc.1 (by omega)
   rw [show removeFromCommonAncestor s1 anc = removeLoop anc.height (s1.mem.latest.height - anc.height) s1 from rfl]
-  generalize removeLoop anc.height (s1.mem.latest.height - anc.height) s1 = s2 at hs2 inv2 hlat2 hver2 ⊢
+  generalize removeLoop anc.height (s1.mem.latest.height - anc.height) s1 = s2 at hs2 inv2 hlat2 hver2 hpend2 hrem2 ⊢
   have hv2 : s2.mem.verified.contains b.hash = true := by
     have := hver2 b.hash (by simpa using hv) hfresh
     simpa using this
@@ -325,9 +368,13 @@ theorem reorg_weight {T : Nat → Option Block} (vt : ValidTree T) (fuel : Nat) 
   have hne2 : b.hash ≠ s2.mem.latest.hash := by
     rw [hlat2]
     exact fun e => hfresh anc hancc.1 e.symm
-  obtain ⟨hs3, c', inv3, hsuf3⟩ := addCore_inserts vt fuel s2 b c2 hs2 inv2 hT hpre2 hnb2 hne2 hv2
-  generalize (addCore (fuel + 1) s2 b).1 = s3 at hs3 inv3 ⊢
-  refine ⟨hs3, c', inv3, Or.inr ?_⟩
+  obtain ⟨hs3, c', inv3, hsuf3, hk3⟩ := addCore_inserts vt fuel s2 b c2 hs2 inv2 hT hpre2 hnb2 hne2 hv2
+  generalize (addCore (fuel + 1) s2 b).1 = s3 at hs3 inv3 hk3 ⊢
+  refine ⟨hs3, c', inv3, Or.inr ?_, ?_⟩
+  rotate_left
+  · intro x hx hn t ht
+    have hx2 : x ∉ c2 := fun h => hn (suffix_mem hsuf3 (List.mem_cons_of_mem _ h))
+    exact hk3 t (hrem2 x hx hx2 t ht)
   obtain ⟨rest, hc⟩ := head_of_latest inv
   obtain ⟨rest', hc'⟩ := head_of_latest inv3
   have hbc' : b ∈ c' := suffix_mem hsuf3 (List.mem_cons_self ..)
@@ -353,14 +400,15 @@ theorem reorg_weight {T : Nat → Option Block} (vt : ValidTree T) (fuel : Nat) 
 theorem addCore_weight {T : Nat → Option Block} (vt : ValidTree T) (fuel : Nat) (s : St) (b : Block) (c : List Block)
     (hs : Safe s) (inv : Inv T s.disk s.mem c) (hT : T b.hash = some b) :
     Safe (addCore (fuel + 2) s b).1 ∧
-    ∃ c', Inv T (addCore (fuel + 2) s b).1.disk (addCore (fuel + 2) s b).1.mem c' ∧ WeightGE c c' := by
+    ∃ c', Inv T (addCore (fuel + 2) s b).1.disk (addCore (fuel + 2) s b).1.mem c' ∧ WeightGE c c' ∧
+      RemovedPending c c' (addCore (fuel + 2) s b).1.mem.pending := by
   by_cases hpre : b.pre = s.mem.latest.hash
-  · obtain ⟨h1, c', h2, h3⟩ := addCore_ext vt (fuel + 2) s b c hs inv hT hpre
-    exact ⟨h1, c', h2, Or.inl h3⟩
+  · obtain ⟨h1, c', h2, h3, _⟩ := addCore_ext vt (fuel + 2) s b c hs inv hT hpre
+    exact ⟨h1, c', h2, Or.inl h3, RemovedPending.of_suffix h3 _⟩
   · unfold addCore
     simp only
     split
-    · exact ⟨hs, c, inv, WeightGE.refl c⟩
+    · exact ⟨hs, c, inv, WeightGE.refl c, RemovedPending.of_suffix (List.suffix_refl _) _⟩
     · rename_i hex
       have hnb : s.disk.blocks b.hash = none := by
         cases hb : s.disk.blocks b.hash with
@@ -373,7 +421,7 @@ theorem addCore_weight {T : Nat → Option Block} (vt : ValidTree T) (fuel : Nat
       · rename_i s1 heq
         have e : (verify s b).1 = s1 := by rw [heq]
         rw [← e]
-        exact ⟨hsv, c, by rw [vs.1]; exact vs.2.2.1, WeightGE.refl c⟩
+        exact ⟨hsv, c, by rw [vs.1]; exact vs.2.2.1, WeightGE.refl c, RemovedPending.of_suffix (List.suffix_refl _) _⟩
       · rename_i s1 heq
         have e : (verify s b).1 = s1 := by rw [heq]
         have e2 : (verify s b).2 = true := by rw [heq]
@@ -383,10 +431,10 @@ theorem addCore_weight {T : Nat → Option Block} (vt : ValidTree T) (fuel : Nat
         have hlat : s1.mem.latest = s.mem.latest := vs.2.2.2.1
         first | rw [if_neg hpre] | skip
         split
-        · exact ⟨hsv, c, inv1, WeightGE.refl c⟩
+        · exact ⟨hsv, c, inv1, WeightGE.refl c, RemovedPending.of_suffix (List.suffix_refl _) _⟩
         · rename_i hnlt
           split
-          · exact ⟨hsv, c, inv1, WeightGE.refl c⟩
+          · exact ⟨hsv, c, inv1, WeightGE.refl c, RemovedPending.of_suffix (List.suffix_refl _) _⟩
           · rename_i anc hanc
             split
             · rename_i hgt
@@ -394,10 +442,10 @@ theorem addCore_weight {T : Nat → Option Block} (vt : ValidTree T) (fuel : Nat
                 (by rw [hlat]; omega) (by intro h; rw [hlat] at h; omega)
             · rename_i hngt
               split
-              · exact ⟨hsv, c, inv1, WeightGE.refl c⟩
+              · exact ⟨hsv, c, inv1, WeightGE.refl c, RemovedPending.of_suffix (List.suffix_refl _) _⟩
               · rename_i ln hln
                 split
-                · exact ⟨hsv, c, inv1, WeightGE.refl c⟩
+                · exact ⟨hsv, c, inv1, WeightGE.refl c, RemovedPending.of_suffix (List.suffix_refl _) _⟩
                 · rename_i hpv
                   exact reorg_weight vt fuel s1 b anc c hsv inv1 hT hanc (by rw [vs.1]; exact hnb) hver
                     (by rw [hlat]; omega) (fun _ => ⟨ln, hln, by simpa using hpv⟩)
